@@ -112,7 +112,7 @@ def get_type_graph(t: type) -> graphlib.TopologicalSorter[TypeNode]:
     u = inspection.unwrap(t)
     root = TypeNode(t, u)
     stack = collections.deque([root])
-    visited = {root.type}
+    visited = {root.type, root.unwrapped}
     while stack:
         parent = stack.popleft()
         parent_unwrapped = inspection.unwrap(parent.type)
@@ -163,8 +163,17 @@ def get_type_graph(t: type) -> graphlib.TopologicalSorter[TypeNode]:
                 node = TypeNode(ref, uref, var=var, cyclic=True)
             # Otherwise, add the type to the stack and track that it's been seen.
             else:
-                node = TypeNode(type=child, unwrapped=unwrapped, var=var)
+                # An anonymous type which we have seen before is walked again under its
+                #   own identity (flagged cyclic): merging it with the first occurrence
+                #   could make that occurrence its own ancestor.
+                is_rewalk = is_visited and is_stdlib is False
+                node = TypeNode(
+                    type=child, unwrapped=unwrapped, var=var, cyclic=is_rewalk
+                )
                 visited.add(node.type)
+                # A type reached through an alias or NewType has been seen as well.
+                if inspection.ishashable(unwrapped):
+                    visited.add(unwrapped)
                 stack.append(node)
             # Flag the type as a "predecessor" of the parent type.
             #   This lets us resolve child types first when we iterate over the graph.
@@ -186,7 +195,7 @@ class TypeNode:
     """The unwrapped type annotation for this node."""
     var: str | None = None
     """The variable or parameter name associated to the type annotation for this node."""
-    cyclic: bool = dataclasses.field(default=False, hash=False, compare=False)
+    cyclic: bool = False
     """Whether this type annotation is cyclic."""
 
     def __post_init__(self):
